@@ -44,6 +44,9 @@ def replay(entry, repo_root):
     if r.get('kind') == 'case':
         res = _run_case(r['case'])
         return res['what'] if res else None
+    if r.get('kind') == 'statuscase':
+        res = _run_status_case(dict(r['case'], repo=repo_root))
+        return res['what'] if res else None
     if r.get('kind') == 'errorcase':
         res = _run_error_case(r['case'])
         return res['what'] if res else None
@@ -143,6 +146,52 @@ def _run_error_case(case):
             return {'input': case, 'what': f"unknown file type {case['flags']}: rc={rc}, exc={exc!r}, stdout={out[:60]!r}, stderr={err[-100:]!r} "
                                            f"(expected an error message, empty stdout and a non-zero status)",
                     'class': 'c14-unknown-type', 'replay': {'kind': 'errorcase', 'case': case}}
+        return None
+    finally:
+        tf.cleanup()
+
+
+def _status_docs():
+    """Document pairs whose rendering contains multi-line pieces (long strings that YAML folds, embedded newlines)."""
+    import yaml
+    long1 = ' '.join(['lorem ipsum dolor sit amet consectetur'] * 6)
+    long2 = long1.replace('dolor', 'color', 1)
+    a = {"name": "pkg", "description": long1, "notes": "line one\nline two\nline three", "v": [1, 2]}
+    b = {"name": "pkg", "description": long1, "notes": "line one\nline 2\nline three", "v": [1, 3], "extra": long2}
+    return {'json': (json.dumps(a), json.dumps(b), '.json'), 'yaml': (yaml.safe_dump(a), yaml.safe_dump(b), '.yml')}
+
+
+def _run_status_case(case):
+    """The real command (a subprocess whose stdout is the process's sys.stdout) under the status settings: default (status
+    output on), --no-status, --quiet: identical stdout and exit status, equal to the library route."""
+    import subprocess
+    import sys
+    _ensure_mimetypes()
+    tf = gt.TempFiles()
+    try:
+        texts = _status_docs()[case['ft']]
+        pa, pb = tf.write(texts[0], texts[2]), tf.write(texts[0] if case['same'] else texts[1], texts[2])
+        env = dict(os.environ)
+        env['PYTHONPATH'] = case['repo'] + os.pathsep + env.get('PYTHONPATH', '')
+        base = [sys.executable, '-m', 'graphtage', pa, pb, '--no-color'] + (['--format', case['fmt']] if case['fmt'] else [])
+        outs = {}
+        for name, extra in (('default', []), ('--no-status', ['--no-status']), ('--quiet', ['--quiet'])):
+            p = subprocess.run(base + extra, env=env, capture_output=True, text=True, timeout=100)
+            outs[name] = (p.returncode, p.stdout)
+        try:
+            lib_out, lib_rc = _lib_render(pa, pb, {}, fmt=case['fmt'])
+        except Exception as e:
+            lib_out, lib_rc = None, None
+        desc = {k: case[k] for k in ('ft', 'fmt', 'same')}
+        for name in ('--no-status', '--quiet'):
+            if outs[name] != outs['default']:
+                return {'input': desc, 'what': f"status case {desc}: stdout/exit status of `graphtage` with status output on differs from "
+                                               f"{name}: {outs['default'][0]} {outs['default'][1][:200]!r} vs {outs[name][0]} {outs[name][1][:200]!r}",
+                        'class': 'c14-status-setting-changes-output', 'replay': {'kind': 'statuscase', 'case': {k: v for k, v in case.items() if k != 'repo'}}}
+        if lib_out is not None and (outs['default'][0] != lib_rc or outs['default'][1] != lib_out):
+            return {'input': desc, 'what': f"status case {desc}: the command prints {outs['default'][1][:200]!r} (rc {outs['default'][0]}), the "
+                                           f"library route {lib_out[:200]!r} (rc {lib_rc})",
+                    'class': 'c14-cli-vs-library:subprocess', 'replay': {'kind': 'statuscase', 'case': {k: v for k, v in case.items() if k != 'repo'}}}
         return None
     finally:
         tf.cleanup()
@@ -298,6 +347,11 @@ def bounded(tier, seed, repo_root):
         if r:
             fails.append(r)
     # a file whose type cannot be determined (unknown suffix, no explicit type) in either position
+    scases = [{'ft': ft, 'fmt': fmt, 'same': same, 'repo': repo_root} for ft in ('json', 'yaml') for fmt in (None, 'json', 'yaml')
+              for same in (False, True)]
+    for r in pmap(_run_status_case, scases, repo_root, job_timeout=400, on_timeout=_case_timeout, skip_result=None):
+        if r:
+            fails.append(r)
     ecases = [{'flags': [], 'sa': '.gtunknownext', 'sb': '.json'}, {'flags': [], 'sa': '.json', 'sb': '.gtunknownext'},
               {'flags': ['--from-json'], 'sa': '.gtunknownext', 'sb': '.gtunknownext'}]
     for r in pmap(_run_error_case, ecases, repo_root, job_timeout=120, on_timeout=_case_timeout, skip_result=None):
@@ -308,7 +362,8 @@ def bounded(tier, seed, repo_root):
         f"-k/--dict-strategy none, -j/-jl -jd, --from-json/--from-mime, --to-json/--to-mime; {len(cases)} explicit-type cases "
         f"with misleading file names for both positions; {len(mcases)} mode cases: {{full, -e, -d}} x --format {{none, json, yaml}} x "
         f"file types of the two positions {{json, yaml}}^2 x {{by suffix, by --from-/--to- flags}} x {{equal, different}} documents, --match-if / --match-unless "
-        f"expressions, files of undeterminable type",
+        f"expressions, files of undeterminable type; {len(scases)} subprocess runs of the real command under status output on / "
+        f"--no-status / --quiet on documents with multi-line pieces",
         'evaluations': n * 9 + len(cases) + len(mcases), 'distinct_nontrivial': len({D.key(j[0]) + D.key(j[1]) for j in jobs}) + len(cases),
         'exhaustive': False,
         'rule': 'document pair x options -> CLI stdout/exit status equals library rendering; equivalent spellings give '
